@@ -381,3 +381,32 @@ def _expand_src(prog, body, s, depth, _seen):
                     out |= trace_sources(prog, y, c.args[1], (idx,), depth - 1, _seen)
         return out
     return {(body, s)}
+
+
+def tally_slot_statics(prog, crate="divan"):
+    """The statics that hold a thread's allocation tally, found by their type (whatever the thread_local! key is called
+    and wherever it is declared): (statics whose type mentions ThreadAllocInfo, path of the key they belong to or None)."""
+    tls = [s for s in prog.statics(crate) if "alloc::ThreadAllocInfo" in s["ty"]]
+    keys = {s["path"].split("::{constant#")[0] for s in tls}
+    return tls, (list(keys)[0] if len(keys) == 1 else None)
+
+
+def hosted_in(prog, body, root_path):
+    """Is `body` a closure (or nested item) of the function `root_path` - directly, or built by a helper that lib.inline
+    spliced into it (Program.parent_body follows such helpers to the function that now contains their code)?"""
+    x = body
+    for _ in range(8):
+        if x is None:
+            return False
+        if x.path == root_path:
+            return True
+        x = prog.parent_body(x)
+    return False
+
+
+def closure_of(prog, crate, name, root_path):
+    """`name` (a Call.name) is a closure hosted in `root_path`."""
+    if "{closure#" not in (name or ""):
+        return False
+    cb = prog.bodies.get((crate, name, -1))
+    return cb is not None and cb.path != root_path and hosted_in(prog, cb, root_path)
